@@ -71,6 +71,7 @@ type Exec struct {
 	knownTerms   map[*Term]*Term
 	feasCache    map[*Term]bool
 	abstractFns  map[string]bool
+	urlQueries   map[*Term]Value
 	gobReg       map[*Term]gobEntry
 	world        *World
 	symLoopBound int
@@ -107,6 +108,7 @@ func NewExec(prog *ssa.Program, pkg *ssa.Package) *Exec {
 		absCache: map[string]*Term{}, maxDepth: 40, loopLimit: 80, loopInfo: map[*ssa.Function]*loops{},
 		invariants: map[string]*LoopSpec{}, knownTerms: map[*Term]*Term{}}
 	ex.symLoopBound = 3
+	ex.urlQueries = map[*Term]Value{}
 	ex.abstractFns = map[string]bool{"escapeQuote": true, "stringBytes": true, "unescape": true, "byteInsertAt": true}
 	curExec = ex
 	return ex
